@@ -1987,3 +1987,6 @@ enum ParsedPatFields {
 
 // a single subpattern, optionally prefixed with a field name: `field = pat`
 type ParsedPatField = (Option<Rc<Identifier>>, Rc<Pat>);
+
+#[cfg(all(kani, abra_verif))]
+include!(concat!(env!("ABRA_VERIF_HARNESS_DIR"), "/parse.rs"));
